@@ -444,9 +444,14 @@ fn gen_big_string(src: &mut Src, o: &GdsGenOpts, big: &mut bool) -> String {
     }
     if o.large_records && src.prob(1, 400) {
         // legal, large: around 32 KB and just below the record limit
-        let n = *src.pick(&[32762usize, 32763, 32764, 32765, 40001, 65529, 65530]);
-        let c = (b'a' + src.below(26) as u8) as char;
-        return std::iter::repeat(c).take(n).collect();
+        let n = *src.pick(&[600usize, 1027, 32762, 32763, 32764, 32765, 40001, 65529, 65530]);
+        // ASCII, or multi-byte characters at every alignment (a short ASCII prefix shifts them)
+        let unit = *src.pick(&["a", "q", "é", "中", "😀"]);
+        let mut out: String = "x".repeat(src.below(4) as usize);
+        while out.len() + unit.len() <= n {
+            out.push_str(unit);
+        }
+        return out;
     }
     gen_string(src, o)
 }
